@@ -5,4 +5,7 @@ Remote3 == <<1, 2, 3>>
 \* entry 2 is written by a second remote writer, concurrently with entry 1; entry 3 follows entry 1
 RemotePar2 == (1 :> {} @@ 2 :> {})
 RemotePar3 == (1 :> {} @@ 2 :> {} @@ 3 :> {1})
+\* trap (not a property): a writer has persisted its head and not yet updated the view while another call, begun
+\* later, has returned. TLC's counterexample is the shortest behaviour with that overtaking; it is replayed like the others
+NoOvertakeAfterPersist == ~(\E g, k \in G : g # k /\ pc[g] = "persisted" /\ pc[k] = "done" /\ cur[g] \in AncIn({cur[k]}, DOMAIN par))
 =============================================================================
